@@ -27,9 +27,9 @@ def run(ctx):
                          [("MC_Repo_neg_nobm", "InvC11")] + ctx.q([], [("MC_Repo_neg_nopred", "InvC11")])
                          + [("MC_Repo_finding", "InvC11")])
     ctx.cov["tlc_runs"][-1]["note"] = "MC_Repo_finding: with the guard against the known findings' shapes lifted TLC reproduces the finding on the model"
-    repo_lib.simulate(ctx, ctx.q(60, 1500))
-    repo_lib.record_and_judge(ctx, "C11", ctx.q(60, 1500), ctx.q(6, 8), is_mine, nontrivial)
-    repo_lib.replay(ctx, "C11", ctx.q(25, 800))
+    repo_lib.simulate(ctx, ctx.q(50, 600))
+    repo_lib.record_and_judge(ctx, "C11", ctx.q(60, 600), ctx.q(6, 8), is_mine, nontrivial)
+    repo_lib.replay(ctx, "C11", ctx.q(20, 300))
     ctx.cov["rule"] = ("evaluations = real rebase_descendants calls judged by TLC (I->S) + replayed model steps (S->I); "
                        "non-trivial = at least one descendant rebased or a bookmark / working copy moved; distinct by the full "
                        "event (records, options, view before and after, new commits)")
